@@ -256,8 +256,8 @@ def gammastd_yxt(
 @lazycompile(
     guvectorize(
         [
-            "(int16[:], int16[:], float64, float64, int16[:, :], int16[:])",
-            "(float32[:], int16[:], float64, float64, int16[:, :], int16[:])",
+            "(int16[:], int16[:], float64, float64, int64[:, :], int16[:])",
+            "(float32[:], int16[:], float64, float64, int64[:, :], int16[:])",
         ],
         "(n),(m),(),(),(o, p) -> (n)",
     )
